@@ -562,10 +562,18 @@ func c07tracer(x *mc.X) {
 }
 
 func c07container(x *mc.X) {
-	faults := []string{"none", "rlimit(soft>hard)", "callback(error)", "execve(ENOENT)", "execve(not found in PATH)", "dup3(closed fd in init)"}
+	faults := []string{"none", "rlimit(soft>hard)", "callback(error)", "execve(ENOENT)", "execve(not found in PATH)", "dup3(closed fd in init)", "callback(error) once the target has descendants"}
 	f := x.Pick("fault", faults...)
 	syncAfter := x.Bool("syncafter")
 	if x.Dry() {
+		return
+	}
+	if f == "callback(error) once the target has descendants" {
+		if !syncAfter {
+			x.Outcome("n/a:target-not-started-before-callback")
+			return
+		}
+		c07containerTree(x)
 		return
 	}
 	c, err := c09pool.get()
@@ -660,3 +668,61 @@ func nspidLine(pid int) string {
 }
 
 func nspidDepth(pid int) int { return len(strings.Fields(nspidLine(pid))) - 1 }
+
+// c07containerTree: sync after exec, and the callback refuses the launch only once the target has built a process tree
+// (plain, signal-ignoring, own-session children, a grandchild). When Execve returns the refusal, nothing of the target
+// may be left running: every process carrying the nonce must be gone (bounded wait: a SIGKILLed process needs a moment
+// to disappear; one that was never killed pauses forever).
+func c07containerTree(x *mc.X) {
+	shape := x.Pick("shape", "p", "i,p+", "s+,i2", "d,o")
+	c, err := c09pool.get()
+	if err != nil {
+		x.Failf("C07/harness", "%v", err)
+		return
+	}
+	nonce := newNonce()
+	pr, pw, _ := os.Pipe()
+	defer pr.Close()
+	p := execveParam([]string{"/probe/tree", nonce, shape, "pause", "1"})
+	p.Files = []uintptr{devnull(), pw.Fd(), devnull()}
+	p.SyncAfterExec = true
+	ready := ""
+	p.SyncFunc = func(pid int) error {
+		pr.SetReadDeadline(time.Now().Add(10 * time.Second))
+		buf := make([]byte, 64)
+		n, _ := pr.Read(buf)
+		ready = strings.TrimSpace(string(buf[:n]))
+		return errCallback
+	}
+	ctx, cancel := context.WithTimeout(context.Background(), 30*time.Second)
+	res := c.Execve(ctx, p)
+	cancel()
+	pw.Close()
+	x.Note("tree", shape+" → "+ready)
+	x.Note("result", fmt.Sprintf("%s %q", statusName(res.Status), res.Error))
+	if !strings.HasPrefix(ready, "READY") {
+		c09pool.drop()
+		killNonce(nonce)
+		x.Failf("C07/harness", "the target tree %s never reported READY (%q)", shape, ready)
+		return
+	}
+	if res.Status != runner.StatusRunnerError || !strings.Contains(res.Error, errCallback.Error()) {
+		x.Failf("C07/container/failure-not-reported/callback(error)", "sync after exec, tree %s: result %v %q", shape, res.Status, res.Error)
+	}
+	gone := waitUntil(5*time.Second, func() bool { return len(scanNonce(nonce)) == 0 })
+	if !gone {
+		left := scanNonce(nonce)
+		killNonce(nonce)
+		c09pool.drop()
+		x.Failf("C07/container/target-survives-refused-launch", "sync after exec, tree %s (%s): %d processes of the refused target are still running 5 s after Execve returned the refusal: %v", shape, ready, len(left), left)
+	}
+	// the environment must still serve the next call
+	if err := c.Ping(); err != nil {
+		c09pool.drop()
+		if gone {
+			x.Failf("C07/container/unusable-after-refused-launch", "tree %s: Ping after the refused launch: %v", shape, err)
+		}
+	}
+	x.Distinct(fmt.Sprint("ct", shape, res.Status, gone))
+	x.Outcome(fmt.Sprintf("container-tree:%s:gone=%v", statusName(res.Status), gone))
+}
